@@ -104,6 +104,8 @@ c08.append(job("send-fails",".","VH_ClientSendFail",["C08/"],{},Q,expect=["C08/s
 c08.append(job("receive-fails-hard",".","VH_ClientSendFail",["C08/"],{"recvfail":1},Q,expect=["C08/receive-failed"],bounds="each of the 12 command methods with the 1st, 2nd or 3rd Receive failing with ENOBUFS/EBADF (outside the property's EINTR/EAGAIN clause): no panic, and nil is returned only if the kernel acknowledged every request with 0"))
 C["C08"]={"jobs":c08,"assumptions":CLIENT_ASSUME,"outside":["the real kernel and socket","more than 2 unsolicited records per wait","Receive returning several messages at once","rule payloads longer than 3-4 bytes (content is only copied)"]}
 C["C16"]={"jobs":[job("setters",".","VH_ClientSetters",["C16/"],{},Q,bounds="7 setters x both wait modes with full-range symbolic arguments (uint32/int32/bool/FailureMode), GetStatus request"),
+   job("setters-after-nowait",".","VH_ClientSetters",["C16/"],{"afternowait":1},Q,bounds="as setters, after one NoWait setter on the same client whose ACK (symbolic errno) nobody collected: the command still sends exactly its own request (what it returns is not judged here)"),
+   job("setters-after-2-nowait",".","VH_ClientSetters",["C16/"],{"afternowait":2},Q,bounds="the same after two uncollected NoWait setters"),
    job("setters-after-getstatus",".","VH_ClientSetters",["C16/"],{"afterget":1},Q,bounds="as setters, after a GetStatus answered with 32/36/40/44 bytes on the same client"),
    job("many-nowait-setters",".","VH_ClientManyNoWait",["C16/"],{"count":40},Q,bounds="40 NoWait setters in a row on one client: each request is AUDIT_SET with REQUEST|ACK and a full-size payload"),
    job("setters-recv-error",".","VH_ClientSetters",["C16/"],{"recvfail":1},Q,bounds="as setters, with the 1st or 2nd Receive of the call failing with ENOBUFS/EBADF/ECONNREFUSED: still exactly one well-formed request"),
@@ -111,7 +113,7 @@ C["C16"]={"jobs":[job("setters",".","VH_ClientSetters",["C16/"],{},Q,bounds="7 s
    job("wire-0-64",".","VH_StatusWire",["C16/"],{"maxlen":64},Q,bounds="FromWireFormat: every buffer length 0..64 with symbolic contents, receiver pre-filled with symbolic garbage"),
    job("wire-100",".","VH_StatusWire",["C16/"],{"maxlen":0,"long":1},Q,bounds="FromWireFormat: buffer length 100")],
    "assumptions":CLIENT_ASSUME+["UAPI constants transcribed from /usr/include/linux/audit.h of this image (see harness constants vUAPI_*)"],"outside":["the live kernel"]}
-C["C17"]={"jobs":[job("history-k3",".","VH_ClientHistory",["C17/"],{"k":3},QO,bounds="histories of 3 operations from {setter NoWait, SetPID NoWait, setter WaitForReply, WaitForPendingACKs, GetRules, Close}, kernel errno per request symbolic"),
+C["C17"]={"jobs":[job("history-k3",".","VH_ClientHistory",["C17/"],{"k":3},QO,bounds="histories of 3 operations from {setter NoWait, SetPID NoWait, setter WaitForReply, SetPID WaitForReply (may be refused), WaitForPendingACKs, GetRules, Close}, kernel errno per request symbolic"),
    job("history-k4",".","VH_ClientHistory",["C17/"],{"k":4},Q,bounds="histories of 4 operations"),
    job("many-nowait-setters",".","VH_ClientManyNoWait",["C17/"],{"count":40},Q,bounds="40 NoWait setters in a row, then WaitForPendingACKs: every ACK consumed exactly once"),
    job("nowait-setters-behind-a-burst",".","VH_ClientManyNoWait",["C17/"],{"count":3,"burst":25},Q,bounds="3 NoWait setters, 25 unsolicited records queued in front of the ACKs, WaitForPendingACKs: every ACK consumed exactly once"),
